@@ -499,7 +499,7 @@ Section SimAll.
     end.
   Proof.
     intros W HR.
-    destruct o as [l e|l e|l b e|l b|l|l|l|l|l|l|d sr|x y|l stop|l];
+    destruct o as [l e|l e|l b e|l b|l|l|l|l|l|l|d sr|x y|l stop|l|l0 d0 stop0];
       try (apply (sim_step_nosort key a p _ W HR); discriminate).
     (* Sort *)
     pose proof W as (Wf & Wn).
@@ -511,6 +511,26 @@ Section SimAll.
     destruct (sort key (length (items sl)) sl) as [sl'|] eqn:ES; simpl; auto.
     destruct (sim_sort key _ a p l sl sl' W HR E (le_n _) ES) as (p' & Ep & HR').
     rewrite Ep. eauto.
+  Qed.
+
+  (** the pointer-level foreach with the moving visitor (successor saved
+      before the visit; visitor = pointer-level pop_front + push_back), from
+      any state representing well-formed sequences: completes with the
+      reference result and represents the reference sequences afterwards *)
+  Lemma fmove_ptr_step a p l d stop sl dl :
+    sys_wf a -> R a p -> l <> d -> nth_error a l = Some sl -> nth_error a d = Some dl ->
+    exists a' p',
+      p_step key p (FMove l d stop) =
+        Done p' (fm_res stop (length (items sl)) :: 0%Z
+                 :: zids (firstn (fm_count stop (length (items sl))) (items sl))) /\
+      R a' p' /\ sys_wf a' /\
+      abs a' = upd (upd (abs a) l (skipn (fm_count stop (length (items sl))) (items sl))) d
+                   (items dl ++ firstn (fm_count stop (length (items sl))) (items sl)).
+  Proof.
+    intros W HR Hne El Ed.
+    destruct (fmove_step key a l d stop sl dl W Hne El Ed) as (a' & Ea & W' & Eabs).
+    pose proof (sim_step a p (FMove l d stop) W HR) as HS. rewrite Ea in HS.
+    destruct HS as (p' & Ep & HR'). exists a', p'. auto.
   Qed.
 
   (** the pointer-level model produces exactly the outputs of the sequence
